@@ -171,6 +171,7 @@ class Compiler:
         next_named = 1
         # id of next temporary pattern
         next_temp = -1
+        self._next_temp = next_temp
         # First number rule names
         for rule in self.lvs.rules:
             temp_pats = {}
@@ -184,6 +185,7 @@ class Compiler:
                     # Always allocate a new number for temporary pattern
                     c.id = str(next_temp)
                     next_temp -= 1
+                    self._next_temp = next_temp
                     if pid not in temp_pats:
                         temp_pats[pid] = [c.id]
                     else:
@@ -222,6 +224,34 @@ class Compiler:
                     except (KeyError, IndexError):
                         raise SemanticError(f'Pattern {cons.pat.id} never occurs before.')
 
+    def _fresh_temporaries(self, chain: RuleChain, used: set[str]) -> RuleChain:
+        """
+        Clone a referenced chain, giving a new number to every temporary pattern whose number is already ``used``
+        in the name being built.
+        Otherwise a rule referred to twice in one name pattern would repeat its temporary tag numbers,
+        and the second occurrence would be taken as a repetition of the first one, losing its constraints.
+        """
+        mapping = {}
+        new_name = []
+        for comp in chain.name:
+            if isinstance(comp, psr.Pattern) and int(comp.id) < 0 and comp.id in used:
+                mapping[comp.id] = str(self._next_temp)
+                self._next_temp -= 1
+                new_name.append(psr.Pattern(id=mapping[comp.id]))
+            else:
+                new_name.append(comp)
+        if not mapping:
+            return chain
+        new_cons = []
+        for cons in chain.cons_set:
+            ids = cons.pat.id.split(' ')
+            if any(i in mapping for i in ids):
+                new_pat = psr.Pattern(id=' '.join(mapping.get(i, i) for i in ids))
+                new_cons.append(psr.TagConstraint(pat=new_pat, options=cons.options))
+            else:
+                new_cons.append(cons)
+        return self.RuleChain(id=chain.id, name=new_name, cons_set=new_cons, sign_cons=chain.sign_cons)
+
     def _replicate_rules(self):
         self.rep_rules = {}
         for rule in self.lvs.rules:
@@ -236,13 +266,16 @@ class Compiler:
                     for chain in cur_chains:
                         chain.name.append(comp)
                 else:
-                    # Note: this repeats temporary tag numbers, which needs to be fixed before emit.
-                    new_chains = [self.RuleChain(id=rule.id.id,
-                                                 name=chain.name+ref_chain.name,
-                                                 cons_set=chain.cons_set+ref_chain.cons_set,
-                                                 sign_cons=chain.sign_cons)
-                                  for ref_chain in self.rep_rules[comp.id]
-                                  for chain in cur_chains]
+                    new_chains = []
+                    for ref_chain in self.rep_rules[comp.id]:
+                        for chain in cur_chains:
+                            # A repeated expansion gets its own temporary tag numbers
+                            used = {c.id for c in chain.name if isinstance(c, psr.Pattern)}
+                            fresh = self._fresh_temporaries(ref_chain, used)
+                            new_chains.append(self.RuleChain(id=rule.id.id,
+                                                             name=chain.name+fresh.name,
+                                                             cons_set=chain.cons_set+fresh.cons_set,
+                                                             sign_cons=chain.sign_cons))
                     assert len(new_chains) > 0
                     cur_chains = new_chains
             if rule.id.id not in self.rep_rules:
